@@ -13,6 +13,7 @@ import (
 	"fmt"
 	"os"
 	"path/filepath"
+	"regexp"
 	"runtime"
 	"sort"
 	"strconv"
@@ -856,6 +857,9 @@ func Main(args []string) int {
 		fmt.Println("ERROR no cases")
 		return 2
 	}
+	if r.Thorough() && replayDoc == "" && os.Getenv("VERIF_C11_FUZZ") != "0" {
+		fuzzStage(r, scratch)
+	}
 	r.Set("json_yaml_pairs_same_node", same)
 	r.Set("json_yaml_pairs_different_node", diff)
 	r.Set("position_relation_tally", relTally)
@@ -1093,4 +1097,49 @@ func rawDocs() []struct{ name, text string } {
 	out = append(out, struct{ name, text string }{"alias-bomb-media-example", head + "              schema:\n                type: object\n              example:\n" + bomb("                ")})
 	out = append(out, struct{ name, text string }{"alias-bomb-examples", head + "              schema:\n                type: object\n              examples:\n                one:\n                  value:\n" + bomb("                    ")})
 	return out
+}
+
+// fuzzStage: coverage-guided workload (thorough tier). Go's native fuzzing engine mutates whole documents, seeded with
+// the small corpus documents; the fuzz target (harness/fuzz/c11) runs ogen.Parse + gen.NewGenerator and the monitor is
+// "no panic, no process death". The run is bounded by an execution count, not by time. A crasher is moved to
+// replay/C11/inputs and reported with the first line of the failure.
+func fuzzStage(r *ev.Run, scratch string) {
+	execs := "3000000x"
+	if v := os.Getenv("VERIF_C11_FUZZ_EXECS"); v != "" {
+		execs = v
+	}
+	dir := filepath.Join(ev.Root(), "harness")
+	crashDir := filepath.Join(dir, "fuzz", "c11", "testdata", "fuzz", "FuzzParseGenerate")
+	os.RemoveAll(filepath.Join(dir, "fuzz", "c11", "testdata"))
+	out, err := genlab.RunIn(dir, 60*time.Minute, genlab.GoEnv(), "go", "test", "./fuzz/c11", "-run", "^$", "-fuzz", "FuzzParseGenerate",
+		"-fuzztime", execs, "-parallel", "8", "-test.fuzzcachedir", filepath.Join(scratch, "fuzzcache"))
+	n := int64(0)
+	for _, m := range regexp.MustCompile(`execs: (\d+)`).FindAllStringSubmatch(out, -1) {
+		fmt.Sscan(m[1], &n)
+	}
+	r.Set("fuzz_executions", n)
+	r.Eval(int(n))
+	ents, _ := os.ReadDir(crashDir)
+	if len(ents) == 0 {
+		if err != nil && !strings.Contains(out, "PASS") {
+			r.Inconclusive("fuzz-stage-did-not-run", tailStr(out, 600))
+		}
+		return
+	}
+	for _, e := range ents {
+		b, _ := os.ReadFile(filepath.Join(crashDir, e.Name()))
+		p := filepath.Join(ev.Root(), "replay", "C11", "inputs", "fuzz-"+e.Name()+".txt")
+		os.MkdirAll(filepath.Dir(p), 0o755)
+		os.WriteFile(p, b, 0o644)
+		first := ""
+		for _, l := range strings.Split(out, "\n") {
+			if strings.Contains(l, "panic:") || strings.Contains(l, "fatal error") {
+				first = strings.TrimSpace(l)
+				break
+			}
+		}
+		site := recursionSite(out)
+		r.Violate("fuzz:"+panicClass(first)+":"+site, "coverage-guided document mutation found a crashing input: "+first, map[string]any{"input_file_go_fuzz_corpus_format": p, "failure": tailStr(out, 1500)})
+	}
+	os.RemoveAll(filepath.Join(dir, "fuzz", "c11", "testdata"))
 }
